@@ -351,8 +351,9 @@ func c22Take(l *c22Ledger, avail map[string]*big.Int, asset string, s *gen.NSSou
 }
 
 type c22Violation struct {
-	sig    string
-	detail map[string]any
+	sig     string
+	detail  map[string]any
+	generic string // signature before a root-cause specific one replaced it
 }
 
 func c22PostingsJSON(ps []vm.Posting) []string {
@@ -367,13 +368,21 @@ func c22PostingsJSON(ps []vm.Posting) []string {
 // final per-(account, asset) balances initial+postings for C23.
 func c22Oracle(p *gen.NSProgram, res c22Result, stats func(string)) []c22Violation {
 	var out []c22Violation
+	dupBalance := p.Uses()["dup_balance_account"]
 	add := func(sig string, extra map[string]any) {
+		generic := sig
+		if dupBalance && !strings.HasPrefix(sig, "C22/posting to an account") {
+			// known root cause (Machine.UnresolvedResourceBalances is keyed by account only: the
+			// first of two balance() variables on one account keeps a nil amount, read as 0)
+			extra["generic_signature"] = sig
+			sig = "C22/amounts wrong in a program with two balance() variables on one account (the first one resolves to nil, i.e. 0)"
+		}
 		d := map[string]any{"program": p.Text, "vars": p.Vars, "balances": p.World.Balances, "meta": p.World.Meta,
 			"postings": c22PostingsJSON(res.postings), "sends": p.Sends}
 		for k, v := range extra {
 			d[k] = v
 		}
-		out = append(out, c22Violation{sig, d})
+		out = append(out, c22Violation{sig, d, generic})
 	}
 	owner := map[string]int{} // destination account -> index in p.Sends
 	for i, sd := range p.Sends {
@@ -566,11 +575,51 @@ func c22Workload(r *core.Run, which string) {
 			}
 			r.Count("sends_checked", int64(len(p.Sends)))
 			for _, v := range c22Oracle(p, res, func(k string) { r.Count(k, 1) }) {
+				sig, generic := v.sig, v.generic
+				min := gen.ShrinkNumscript(p, func(q *gen.NSProgram) bool {
+					qr := c22RunMachine(q)
+					if qr.err != nil {
+						return false
+					}
+					for _, w := range c22Oracle(q, qr, func(string) {}) {
+						if w.sig == sig && w.generic == generic {
+							return true
+						}
+					}
+					return false
+				}, 1500)
+				c22AttachMinimised(v.detail, min)
+				for _, w := range c22Oracle(min, c22RunMachine(min), func(string) {}) {
+					if w.sig == sig && w.generic == generic {
+						obs := map[string]any{}
+						for k, x := range w.detail {
+							switch k {
+							case "program", "vars", "balances", "meta", "postings", "sends":
+							default:
+								obs[k] = x
+							}
+						}
+						v.detail["minimised_observation"] = obs
+						break
+					}
+				}
 				c.Violation(v.sig, v.detail)
 			}
 			return
 		}
-		c23Judge(r, c, p, res)
+		for _, v := range c23Judge(r, p, res, true) {
+			sig := v.sig
+			min := gen.ShrinkNumscript(p, func(q *gen.NSProgram) bool {
+				for _, w := range c23Judge(r, q, c22RunMachine(q), false) {
+					if w.sig == sig {
+						return true
+					}
+				}
+				return false
+			}, 1500)
+			c22AttachMinimised(v.detail, min)
+			c.Violation(v.sig, v.detail)
+		}
 	})
 	if len(panics) > 0 {
 		r.Extra("machine_panic_witnesses", panics)
@@ -583,4 +632,23 @@ func c22Short(s string) string {
 		s = s[:90]
 	}
 	return s
+}
+
+func c22AttachMinimised(detail map[string]any, min *gen.NSProgram) {
+	mr := c22RunMachine(min)
+	used := map[string]map[string]string{}
+	for a, bs := range min.World.Balances {
+		if strings.Contains(min.Text, "@"+a) || c26VarsMention(min.Vars, a) {
+			used[a] = map[string]string{}
+			for as, b := range bs {
+				used[a][as] = b.String()
+			}
+		}
+	}
+	detail["minimised_program"] = min.Text
+	detail["minimised_vars"] = min.Vars
+	detail["minimised_balances_of_mentioned_accounts"] = used
+	detail["minimised_all_balances"] = min.World.Balances
+	detail["minimised_meta"] = min.World.Meta
+	detail["minimised_postings"] = c22PostingsJSON(mr.postings)
 }
